@@ -8,6 +8,7 @@ import (
 	"runtime"
 	"runtime/debug"
 	"sync"
+	"time"
 )
 
 //go:noinline
@@ -139,10 +140,22 @@ func ChurnSmall(n int) {
 	runtime.KeepAlive(keep)
 }
 
-// GC runs two collections (finalizers / sweeping of the first complete in the second).
+// GC runs two collections (finalizers / sweeping of the first complete in the second) and gives the finalizer goroutine
+// the time to run what the collections queued: a sentinel object's finalizer is waited for (bounded), then the
+// goroutine yields once more for finalizers queued behind it.
 func GC() {
+	done := make(chan struct{})
+	sentinel := new([24]byte)
+	runtime.SetFinalizer(sentinel, func(*[24]byte) { close(done) })
+	sentinel = nil
 	runtime.GC()
 	runtime.GC()
+	select {
+	case <-done:
+	case <-time.After(50 * time.Millisecond):
+	}
+	runtime.Gosched()
+	time.Sleep(50 * time.Microsecond)
 }
 
 //go:noinline
